@@ -14,11 +14,14 @@ sys.path.insert(0, os.path.dirname(os.path.dirname(os.path.abspath(__file__))))
 sys.dont_write_bytecode = True
 
 
+RUN = str(os.getpid())      # scratch directories are per run, so that concurrent runs do not remove each other's
+
+
 def one(args):
-    seeds_dir, sid = args
-    os.environ["RSS_CACHE"] = "/var/tmp/rss_cache_seedtest"
+    seeds_dir, sid, run = args
+    os.environ["RSS_CACHE"] = "/var/tmp/rss_cache_seedtest.%s" % run
     from rss import engine
-    work = "/var/tmp/seedtest/%s" % sid
+    work = "/var/tmp/seedtest.%s/%s" % (run, sid)
     shutil.rmtree(work, ignore_errors=True)
     os.makedirs(work)
     subprocess.run(["rsync", "-a", "--exclude", "target", "--exclude", ".git", "/repo/", work + "/"], check=True)
@@ -51,7 +54,7 @@ def main():
         seeds = [s for s in seeds if s in only or s.split("_")[0] in only]
     summary = {}
     with ProcessPoolExecutor(jobs) as ex:
-        for sid, res in ex.map(one, [(seeds_dir, s) for s in seeds]):
+        for sid, res in ex.map(one, [(seeds_dir, s, RUN) for s in seeds]):
             if "error" in res:
                 print("%-8s ERROR %s" % (sid, res["error"]))
                 summary[sid] = {"error": res["error"]}
@@ -62,12 +65,12 @@ def main():
                     hits.append(v)
                 if r.get("error"):
                     hits.append((prop + "/CRASH", "crash", "", r["error"][-200:]))
-            own = sid.split("_")[0]
+            own = sid[:3]
             print("%-8s %s" % (sid, "DETECTED by " + ", ".join(sorted({h[0] for h in hits})) if hits else "missed"))
             summary[sid] = {"detected": bool(hits), "by": sorted({h[0] for h in hits}), "own_property": any(h[0].startswith(own + "/") for h in hits),
                             "details": [list(h) for h in hits][:6]}
-    shutil.rmtree("/var/tmp/seedtest", ignore_errors=True)
-    shutil.rmtree("/var/tmp/rss_cache_seedtest", ignore_errors=True)
+    shutil.rmtree("/var/tmp/seedtest.%s" % RUN, ignore_errors=True)
+    shutil.rmtree("/var/tmp/rss_cache_seedtest.%s" % RUN, ignore_errors=True)
     out = os.environ.get("SEEDTEST_OUT")
     if out:
         json.dump(summary, open(out, "w"), indent=1)
